@@ -33,26 +33,19 @@ theorem wf_not_sighting_of_invalid (m : Msg σ) (hw : m.wf = true)
 /-- the transitions of a search response / alive / update, as seen by the judge -/
 theorem sight_step_ok (le : σ → σ → Bool) {s : Tracker σ} {sp : Sp σ} (hi : Inv s) (hr : Rel sp s) (m : Msg σ)
     (hw : m.wf = true) (hk : m.kind ≠ .byebye) (s' : Tracker σ)
-    (H : (s' = s ∧ m.sighting? = none) ∨ (s' = purge s m.ts ∧ m.sighting? = none) ∨
+    (H : (s' = s ∧ m.sighting? = none) ∨
       ∃ u loc d nl d', seeDevice ipv s m = ((seeDevice ipv s m).1, some (u, d, nl)) ∧ m.sighting? = some (u, loc) ∧
         d'.validTo = d.validTo ∧ d'.locs = d.locs ∧
         s' = ⟨set (seeDevice ipv s m).1.devices u d', (seeDevice ipv s m).1.next⟩) :
     Inv s' ∧ Rel (specStep sp (.msg m)) s' ∧
     stepOk (specStep sp (.msg m)) (.msg m) (snapOf le s) (snapOf le s') = true := by
   have hbye : m.byebye? = none := by simp [Msg.byebye?, hk]
-  rcases H with ⟨hs, hsi⟩ | ⟨hs, hsi⟩ | ⟨u, loc, d, nl, d', hsd, hsi, hv, hl, hs⟩
+  rcases H with ⟨hs, hsi⟩ | ⟨u, loc, d, nl, d', hsd, hsi, hv, hl, hs⟩
   · rw [hs]
     have hr' : Rel (specStep sp (.msg m)) s := by simp only [specStep, hsi, hbye]; exact rel_tick hr _
     refine ⟨hi, hr', ?_⟩
     simp only [stepOk, hsi, hbye, Bool.and_eq_true]
     exact ⟨present_ok le hi hr', inert_same le hi⟩
-  · rw [hs]
-    have hi' := inv_purge hi m.ts
-    have hr' : Rel (specStep sp (.msg m)) (purge s m.ts) := by
-      simp only [specStep, hsi, hbye]; exact rel_tick_purge hi hr _
-    refine ⟨hi', hr', ?_⟩
-    simp only [stepOk, hsi, hbye, Bool.and_eq_true]
-    exact ⟨present_ok le hi' hr', inert_purge le hi m.ts⟩
   · obtain ⟨loc', hu, hloc, hd, _, hsd1⟩ := seeDevice_dev ipv s m _ u d nl hsd
     have hisd := inv_seeDevice ipv hi m
     have hdv : d.validTo = m.ts + m.maxAge := by rw [hd, (sighted_props _ _ _ _).1, refreshed_validTo]
@@ -85,7 +78,6 @@ theorem sighting_of_valid (m : Msg σ) (hk : m.kind ≠ .byebye) (u loc ty : σ)
 
 theorem search_cases (s : Tracker σ) (m : Msg σ) (hw : m.wf = true) (hk : m.kind = .search) :
     ((seeSearch ipv skip s m).1 = s ∧ m.sighting? = none) ∨
-    ((seeSearch ipv skip s m).1 = purge s m.ts ∧ m.sighting? = none) ∨
       ∃ u loc d nl d', seeDevice ipv s m = ((seeDevice ipv s m).1, some (u, d, nl)) ∧ m.sighting? = some (u, loc) ∧
         d'.validTo = d.validTo ∧ d'.locs = d.locs ∧
         (seeSearch ipv skip s m).1 = ⟨set (seeDevice ipv s m).1.devices u d', (seeDevice ipv s m).1.next⟩ := by
@@ -95,11 +87,11 @@ theorem search_cases (s : Tracker σ) (m : Msg σ) (hw : m.wf = true) (hk : m.ki
     obtain ⟨⟨⟨_, ⟨ty, hty⟩⟩, ⟨loc, hloc⟩⟩, hlo⟩ := hv'
     cases hu : m.udn with
     | none =>
-      right; left
+      left
       refine ⟨?_, by simp [Msg.sighting?, hu]⟩
       simp [seeSearch, hv, seeDevice_none ipv s m (Or.inl hu)]
     | some u =>
-      right; right
+      right
       have hsd := seeDevice_some ipv s m u loc hu hloc
       obtain ⟨d, hd⟩ : ∃ d, d = sighted (refreshed (purge s m.ts) u (m.ts + m.maxAge)) loc (m.ts + m.maxAge) m.ts :=
         ⟨_, rfl⟩
@@ -113,7 +105,6 @@ theorem search_cases (s : Tracker σ) (m : Msg σ) (hw : m.wf = true) (hk : m.ki
 
 theorem adv_cases (s : Tracker σ) (m : Msg σ) (hw : m.wf = true) (hk : m.kind = .alive ∨ m.kind = .update) :
     ((seeAdv ipv skip s m).1 = s ∧ m.sighting? = none) ∨
-    ((seeAdv ipv skip s m).1 = purge s m.ts ∧ m.sighting? = none) ∨
       ∃ u loc d nl d', seeDevice ipv s m = ((seeDevice ipv s m).1, some (u, d, nl)) ∧ m.sighting? = some (u, loc) ∧
         d'.validTo = d.validTo ∧ d'.locs = d.locs ∧
         (seeAdv ipv skip s m).1 = ⟨set (seeDevice ipv s m).1.devices u d', (seeDevice ipv s m).1.next⟩ := by
@@ -125,11 +116,11 @@ theorem adv_cases (s : Tracker σ) (m : Msg σ) (hw : m.wf = true) (hk : m.kind 
     obtain ⟨⟨⟨⟨_, ⟨ty, hty⟩⟩, _⟩, ⟨loc, hloc⟩⟩, hlo⟩ := hv'
     cases hu : m.udn with
     | none =>
-      right; left
+      left
       refine ⟨?_, by simp [Msg.sighting?, hu]⟩
       simp [seeAdv, hv, seeDevice_none ipv s m (Or.inl hu)]
     | some u =>
-      right; right
+      right
       have hsd := seeDevice_some ipv s m u loc hu hloc
       obtain ⟨d, hd⟩ : ∃ d, d = sighted (refreshed (purge s m.ts) u (m.ts + m.maxAge)) loc (m.ts + m.maxAge) m.ts :=
         ⟨_, rfl⟩
